@@ -611,14 +611,15 @@ pub(crate) enum Tag {
 }
 
 impl Tag {
-    /// Get the tag field name, applying inflection if using inflectable variant
-    pub(crate) fn field_name(&self, root_attrs: &RootAttributes) -> String {
+    /// The tag field name under the name style in force where it is emitted: `name` gets the
+    /// container prefix and is inflected like a field, `name_exact` is used verbatim.
+    pub(crate) fn field_name(&self, root_attrs: &RootAttributes, style: NameStyle) -> String {
         match self {
             Tag::Inflectable { name, .. } => root_attrs
                 .prefix
                 .as_ref()
-                .map(|p| p.apply(name, root_attrs.rename_all))
-                .unwrap_or_else(|| root_attrs.rename_all.apply(name)),
+                .map(|p| p.apply(name, style))
+                .unwrap_or_else(|| style.apply(name)),
             Tag::Exact { name, .. } => name.clone(),
         }
     }
